@@ -90,3 +90,38 @@ func TestSyncRingRaceStress(t *testing.T) {
 		}
 	}
 }
+
+// "Every capacity": one goroutine fills and drains rings whose REQUESTED capacity lies far from the small ones of the
+// step-model cases (a ring of 2^17 or more slots is beyond the list-based model).  Push must succeed exactly Cap()
+// times on an empty ring (Cap() >= the request), fail when full, and Pop must return the values in order.
+func TestSyncRingLargeCapacities(t *testing.T) {
+	reqs := []int{65537, 70000, 131071, 131073, 131074, 196609}
+	if os.Getenv("VERIF_TIER") == "thorough" {
+		reqs = append(reqs, 65538, 98305, 100000, 163841, 262145, 262148, 300000, 393217, 524289, 1048577, 2097153)
+	}
+	for _, req := range reqs {
+		r := ringz.NewSync[int32](req)
+		c := r.Cap()
+		if c < req {
+			t.Errorf("NewSync(%d): Cap() = %d is below the request", req, c)
+			continue
+		}
+		n := 0
+		for n <= c && r.Push(int32(n+1)) {
+			n++
+		}
+		if n != c {
+			t.Errorf("NewSync(%d): %d pushes succeeded on an empty ring, Cap() = %d", req, n, c)
+		}
+		if r.Len() != n && n <= c {
+			t.Errorf("NewSync(%d): Len() = %d after %d successful pushes", req, r.Len(), n)
+		}
+		for i := 0; i < n; i++ {
+			v, ok := r.Pop()
+			if !ok || v != int32(i+1) {
+				t.Errorf("NewSync(%d): Pop #%d = (%d, %v), want (%d, true): a stored value was lost or reordered", req, i+1, v, ok, i+1)
+				break
+			}
+		}
+	}
+}
